@@ -142,9 +142,6 @@ theorem pow_bound_lower {N M a b u w e : Nat} (hN : 2 ^ a ≤ N) (hM : M < 2 ^ (
     Nat.mul_le_mul (Nat.le_refl _) (Nat.mul_le_mul (Nat.le_of_lt hM) (Nat.le_refl _))
   omega
 
-/-- the quotient at exponent `q`, as a function of `q` -/
-def quotAt (N M : Nat) (q : Int) : Nat := (scale N M q).1 / (scale N M q).2
-
 theorem quotAt_lt {N M a b e : Nat} {q : Int} (hM0 : 0 < M) (hN : N < 2 ^ (a + 1)) (hM : 2 ^ b ≤ M)
     (h : (a : Int) + 1 ≤ e + b + q) : quotAt N M q < 2 ^ e := by
   unfold quotAt
